@@ -81,8 +81,8 @@ func init() {
 }
 
 func init() {
-	props["C19"] = &propCfg{Parts: []part{{Engine: "flowsim", Quick: 30000, Thorough: 800000}},
-		Rule: flowRule + "a function, struct or batch node configured by a sequence of up to 6 settings (max retries, wait, batch concurrency, error handling; option or builder form; functions attached by option or by builder) and probed by a run with failing attempts, waits and concurrent items; the same seed and schedule are then replayed on the canonically configured twin (constructor options only, last values) and the two event logs must be identical; non-trivial = at least three callback invocations"}
+	props["C19"] = &propCfg{Parts: []part{{Engine: "flowsim", Quick: 30000, Thorough: 800000}, {Engine: "poolsim", Quick: 4000, Thorough: 100000}},
+		Rule: flowRule + "a function, struct or batch node configured by a sequence of up to 6 settings (max retries, wait, batch concurrency, error handling; option or builder form; functions attached by option or by builder) and probed by a run with failing attempts, waits and concurrent items; the same seed and schedule are then replayed on the canonically configured twin (constructor options only, last values) and what the callbacks saw must be identical; the poolsim part runs pools of size -3..0 (documented default: one worker); non-trivial = at least three callback invocations"}
 }
 
 func init() {
